@@ -80,6 +80,7 @@ func menu(genesisCoinbase common.Uint256) (*menuT, interfaces.Transaction) {
 	fo := []*common2.Output{
 		sk.Out(addrA, 1000), sk.Out(addrA, 1000), sk.Out(addrB, 1000), sk.Out(addrC, 1000),
 		sk.Out(addrA, 500), sk.Out(addrA, 1000), sk.Out(addrA, 1000), sk.Out(addrB, 0),
+		sk.Out(addrA, 1000), sk.Out(addrB, 1000), sk.Out(addrC, 1000),
 	}
 	m.fund = sk.Transfer(0xf0, ins(genesisCoinbase, 0), fo)
 	f := m.fund.Hash()
@@ -110,6 +111,13 @@ func menu(genesisCoinbase common.Uint256) (*menuT, interfaces.Transaction) {
 	p1 := sk.Transfer(10, ins(f, 5), outs(sk.Out(addrA, 500), sk.Out(addrB, 500)))
 	p2 := sk.Transfer(11, ins(f, 6, 7), outs(sk.Out(addrA, 1000)))
 	add(&op{name: "two", txs: []interfaces.Transaction{p1, p2}, miner: addrA})
+
+	// three transfers in one block in both directions among the addresses (A→B, B→C+A, C→A),
+	// all spending outputs of an earlier block
+	add(&op{name: "three", txs: []interfaces.Transaction{
+		sk.Transfer(20, ins(f, 8), outs(sk.Out(addrB, 1000))),
+		sk.Transfer(21, ins(f, 9), outs(sk.Out(addrC, 500), sk.Out(addrA, 500))),
+		sk.Transfer(22, ins(f, 10), outs(sk.Out(addrA, 1000)))}, miner: addrB})
 
 	m.addrs = []common.Uint168{addrA, addrB, addrC}
 	m.txids = []common.Uint256{genesisCoinbase, f, fundCb.Hash()}
@@ -682,6 +690,129 @@ func (e *explorer) explore() {
 	})
 }
 
+// ---------------------------------------------------------------------------------------------
+// restart scenarios: reorganisation, restart, more blocks
+//
+// Family (L, d, k): build a chain of L blocks, disconnect the last d, connect d+1 different
+// blocks, close and reopen the store (the index manager's Init runs as at node start, including
+// TxIndex.Init's search for the highest internal block id), connect k more blocks. After every
+// step every transaction ever created (on or off the active chain) and the three addresses are
+// checked against the replay of the active chain. Each block holds a coinbase and one transfer
+// spending the transfer of its parent block.
+
+type scenario struct{ L, D, K int }
+
+func runScenario(e *explorer, sc scenario) []fail {
+	s := e.fresh()
+	defer func() { s.Destroy() }()
+	c := &ctx{s}
+	type link struct{ op common2.OutPoint }
+	stack := []link{{common2.OutPoint{TxID: e.m.fund.Hash(), Index: 0}}}
+	addrs := []common.Uint168{addrA, addrB, addrC}
+	var ids []common.Uint256
+	ids = append(ids, e.m.txids[:3]...)
+	ctr := 0
+	step := func(kind string) []fail {
+		exp := replayModel(c.s.Blocks).expected(ids, e.m.addrs)
+		got := observe(c.s, ids, e.m.addrs)
+		atomic.AddInt64(&e.checks, 1)
+		return classify(exp, got, kind, "restart-scenario")
+	}
+	connect := func() []fail {
+		ctr++
+		prev := stack[len(stack)-1].op
+		t := sk.Transfer(byte(ctr), []*common2.Input{sk.In(prev.TxID, prev.Index)}, outs(sk.Out(addrs[ctr%3], 1000), sk.Out(addrs[(ctr+1)%3], 0)))
+		t.SetLockTime(uint32(1000 + ctr))
+		tip := c.s.Tip()
+		cb := sk.Coinbase(tip.Height+1, []byte{byte(ctr), 0x5c}, sk.Out(addrs[(ctr+2)%3], 100))
+		b := c.s.RawBlock([]interfaces.Transaction{cb, t})
+		if err := c.s.Connect(b, nil); err != nil {
+			evid.Fatalf("restart scenario %+v: connect: %v", sc, err)
+		}
+		atomic.AddInt64(&e.transitions, 1)
+		ids = append(ids, cb.Hash(), t.Hash())
+		stack = append(stack, link{common2.OutPoint{TxID: t.Hash(), Index: 0}})
+		return step("connect")
+	}
+	for i := 0; i < sc.L; i++ {
+		if fs := connect(); len(fs) > 0 {
+			return fs
+		}
+	}
+	for i := 0; i < sc.D; i++ {
+		if _, err := c.s.DisconnectTip(nil); err != nil {
+			return []fail{{"C14|disconnect-error|restart-scenario", err.Error()}}
+		}
+		atomic.AddInt64(&e.transitions, 1)
+		stack = stack[:len(stack)-1]
+		if fs := step("disconnect"); len(fs) > 0 {
+			return fs
+		}
+	}
+	for i := 0; i < sc.D+1; i++ {
+		if fs := connect(); len(fs) > 0 {
+			return fs
+		}
+	}
+	if err := c.s.Reopen(); err != nil {
+		evid.Fatalf("restart scenario %+v: reopen: %v", sc, err)
+	}
+	atomic.AddInt64(&e.reopens, 1)
+	if fs := step("restart"); len(fs) > 0 {
+		return fs
+	}
+	for i := 0; i < sc.K; i++ {
+		fs := connect()
+		for j := range fs {
+			fs[j].sig = strings.Replace(fs[j].sig, "after=connect", "after=connect-after-restart", 1)
+		}
+		if len(fs) > 0 {
+			return fs
+		}
+	}
+	atomic.AddInt64(&e.nodes, 1)
+	return nil
+}
+
+func (e *explorer) scenarios(list []scenario) {
+	par.Go(len(list), func(i int) {
+		fs := runScenario(e, list[i])
+		if len(fs) == 0 {
+			return
+		}
+		// confirm once more on a fresh store
+		if a, b := sigs(fs), sigs(runScenario(e, list[i])); a != b {
+			evid.Fatalf("restart scenario %+v does not reproduce: first %s then %s", list[i], a, b)
+		}
+		name := []string{fmt.Sprintf("L=%d", list[i].L), fmt.Sprintf("d=%d", list[i].D), fmt.Sprintf("k=%d", list[i].K)}
+		e.mu.Lock()
+		for _, f := range fs {
+			cur := e.found[f.sig]
+			if cur == nil {
+				cur = &found{}
+				e.found[f.sig] = cur
+			}
+			cur.count++
+			if cur.hist == nil || strings.Join(name, ",") < strings.Join(cur.hist, ",") {
+				cur.hist, cur.what = name, fmt.Sprintf("scenario L=%d d=%d k=%d: %s", list[i].L, list[i].D, list[i].K, f.what)
+			}
+		}
+		e.mu.Unlock()
+	})
+	var ks []string
+	for k := range e.found {
+		ks = append(ks, k)
+	}
+	sort.Strings(ks)
+	for _, k := range ks {
+		f := e.found[k]
+		var sc scenario
+		fmt.Sscanf(strings.Join(f.hist, " "), "L=%d d=%d k=%d", &sc.L, &sc.D, &sc.K)
+		e.r.MergeViolation(evid.Violation{Signature: k, What: f.what, Count: f.count,
+			Artefact: map[string]interface{}{"system": "c14-restart", "L": sc.L, "d": sc.D, "k": sc.K}})
+	}
+}
+
 func newExplorer(r *evid.Run, base string, m *menuT, fundCb interfaces.Transaction, ops []string, depth int, cold bool) *explorer {
 	e := &explorer{r: r, base: base, m: m, fundCb: fundCb, ops: ops, maxDepth: depth, cold: cold,
 		confirmed: map[string]bool{}, found: map[string]*found{}, states: map[string]bool{}}
@@ -703,10 +834,28 @@ func main() {
 
 	if r.Replay != "" {
 		var a struct {
+			System  string   `json:"system"`
 			History []string `json:"history"`
 			Cold    bool     `json:"cold"`
+			L       int      `json:"L"`
+			D       int      `json:"d"`
+			K       int      `json:"k"`
 		}
 		want := r.LoadReplay(&a)
+		if a.System == "c14-restart" {
+			e := newExplorer(r, base, m, fundCb, all, 0, false)
+			fs := runScenario(e, scenario{a.L, a.D, a.K})
+			fmt.Printf("replay restart scenario L=%d d=%d k=%d (expected %s):\n", a.L, a.D, a.K, want)
+			for _, f := range fs {
+				fmt.Printf("  FAIL %s — %s\n", f.sig, f.what)
+				r.Violate(f.sig, f.what, map[string]interface{}{"system": "c14-restart", "L": a.L, "d": a.D, "k": a.K})
+			}
+			if len(fs) == 0 {
+				fmt.Println("  ok")
+			}
+			os.RemoveAll(base)
+			r.Finish(evid.Coverage{})
+		}
 		e := newExplorer(r, base, m, fundCb, all, len(a.History), a.Cold)
 		fs := e.replayHistory(a.History)
 		fmt.Printf("replay %v cold=%v (expected %s):\n", a.History, a.Cold, want)
@@ -759,6 +908,30 @@ func main() {
 		samples = append(samples, e.samples.Out...)
 		phaseInfo = append(phaseInfo, map[string]interface{}{"phase": ph.name, "alphabet": ph.ops, "depth": ph.depth, "reopen_after_every_transition": ph.cold,
 			"connect_sequences": e.nodes, "oracle_evaluations": e.checks, "states_per_depth": e.perDepth, "completed": e.expired == 0})
+	}
+	// restart scenarios
+	{
+		var list []scenario
+		lo, hi, dk := 5, 7, 3
+		if r.Thorough() {
+			lo, hi, dk = 3, 9, 4
+		}
+		for L := lo; L <= hi; L++ {
+			for d := 1; d <= dk && d < L; d++ {
+				for k := 1; k <= dk; k++ {
+					list = append(list, scenario{L, d, k})
+				}
+			}
+		}
+		e := newExplorer(r, base, m, fundCb, all, 0, false)
+		e.scenarios(list)
+		totNodes += e.nodes
+		totTrans += e.transitions
+		totChecks += e.checks
+		totInst += e.instances
+		totReopen += e.reopens
+		phaseInfo = append(phaseInfo, map[string]interface{}{"phase": "restart-scenarios", "scenarios": len(list), "completed_without_failure": e.nodes,
+			"space": fmt.Sprintf("chain of L in %d..%d blocks, disconnect d in 1..%d, connect d+1 new blocks, reopen the store, connect k in 1..%d more; oracle after every step over every transaction ever created", lo, hi, dk, dk)})
 	}
 	if len(samples) == 0 {
 		samples = append(samples, []string{})
